@@ -116,7 +116,7 @@ def gen_cfg(rng):
     # C10 extras: float / percent vary_rounds, string-typed numbers are applied by the rendering style
     for s in cfg["schemes"]:
         if s in c04.ROUNDS and H.get(s).rounds_cost == "linear" and rng.random() < 0.3 and "rounds" not in cfg["opts"].get(s, {}):
-            cfg["opts"].setdefault(s, {})["vary_rounds"] = rng.choice([0.125, 0.333, 0.1, "10%", "12.5%", 0.05, 3, 1 / 3, 0.1234567, "57%", "7%", 0.30000000000000004, 2 / 7])
+            cfg["opts"].setdefault(s, {})["vary_rounds"] = rng.choice([0.125, 0.333, 0.1, "10%", "12.5%", 0.05, 3, 1 / 3, 0.1234567, "57%", "7%", 0.30000000000000004, 2 / 7, 5e-05, 1e-06, 2.5e-05, "1E-3"])
     # booleans as real bools and in the documented string spellings (per scheme, for a category, and through the wildcard scheme)
     for s in cfg["schemes"]:
         if s in ("bcrypt", "des_crypt") and rng.random() < 0.5:
@@ -323,6 +323,27 @@ def _roundtrip_one(run, idx):
             again.pop("to_string", None)
         if again != base:
             run.violation("C10|roundtrip|original-changed", "exporting / copying changed the original context", dict(config=kw))
+        # update() with the short spelling of a wildcard option (vary_rounds=.., truncate_error=..) replaces the stored all__ value
+        for short, newval in (("truncate_error", True), ("truncate_error", False), ("vary_rounds", 3), ("vary_rounds", 0)):
+            c2 = ctx.copy()
+            before = c2.to_dict()
+            if f"all__{short}" not in before and idx % 2:
+                continue
+            try:
+                c2.update(**{short: newval})
+            except ValueError:
+                continue
+            after = c2.to_dict()
+            exp = dict(before)
+            exp[f"all__{short}"] = newval
+            run.case((sh, "update-short-spelling", short, f"all__{short}" in before), None)
+            run.count("update_short_spelling")
+            if f"all__{short}" in before:
+                run.count("update_short_spelling_over_existing")
+            if after != exp:
+                run.violation(f"C10|update|short-spelling-{short}|{'existing-value-kept' if after.get('all__' + short) == before.get('all__' + short) and before.get('all__' + short) != newval else 'other-keys-touched'}",
+                              f"update({short}={newval!r}) on a context with all__{short}={before.get('all__' + short)!r} gives all__{short}={after.get('all__' + short)!r}; other differences: {set(map(str, after.items())) ^ set(map(str, exp.items()))}",
+                              dict(config=kw, key=short, value=newval))
         # update() replaces exactly the given keys
         for s in cfg["schemes"]:
             if s in c04.ROUNDS:
@@ -652,6 +673,7 @@ def body(run):
     run.require("failpoint_faults", 2000)
     run.require("raising_hasher_faults", 10)
     run.require("object_scheme_configs", 10)
+    run.require("update_short_spelling_over_existing", 10)
     for lab in ("to_dict", "to_string", "copy", "empty-update", "load-context"):
         run.require(f"roundtrip:{lab}", 30)
     for op in ("update-kwds", "update-dict", "load-dict", "load-ini"):
